@@ -31,7 +31,9 @@ AstAgree(qa, ast) ==
        [] OTHER -> TRUE
 
 Verdict(ev, i) ==
-  IF ~Supported(ev.q) THEN PrintT(<<"UNSUPPORTED", i>>)
+  IF "flist" \in DOMAIN ev THEN       \* a unit list over float values / float-valued units: judged on the observed floats
+     (IF FloatListLaw(ev.flist.v, ev.flist.us, ev.flist.ps) THEN TRUE ELSE PrintT(<<"REJECT", i, "float list law">>))
+  ELSE IF ~Supported(ev.q) THEN PrintT(<<"UNSUPPORTED", i>>)
   ELSE
     \E qa \in {ParseQueryText(ev.q)} :
     /\ IF ev.ast.k # "none" /\ ~AstAgree(qa, ev.ast) THEN PrintT(<<"ASTDIFF", i>>) ELSE TRUE
